@@ -4,12 +4,20 @@ package main
 
 import (
 	"fmt"
+	"math"
 	"go/token"
 	"go/types"
 	"strings"
 
 	"golang.org/x/tools/go/ssa"
 )
+
+func fpConstArg(a *Term) (float64, bool) {
+	if a == nil {
+		return 0, false
+	}
+	return fpConst(a)
+}
 
 func (x *Exec) knownStr(v Value, what string) string {
 	s, ok := v.(*StrV)
@@ -117,6 +125,18 @@ func (x *Exec) intrinsic(fn *ssa.Function, name string, args []Value, g *Term, s
 		}
 	case "math":
 		a, _ := args[0].(*Term)
+		if f, ok := fpConstArg(a); ok {
+			switch short {
+			case "Log2":
+				return c.fpOf(math.Log2(f)), nil, true
+			case "Floor":
+				return c.fpOf(math.Floor(f)), nil, true
+			case "Ceil":
+				return c.fpOf(math.Ceil(f)), nil, true
+			case "Abs":
+				return c.fpOf(math.Abs(f)), nil, true
+			}
+		}
 		switch short {
 		case "Log2":
 			if a != nil && a.Op == OFpFromUInt {
@@ -248,6 +268,14 @@ func (x *Exec) vxIntrinsic(fn *ssa.Function, short string, args []Value, g *Term
 		return &StrV{Known: true, S: fmt.Sprintf("%s[%d]", x.knownStr(args[0], short), i.SignedVal())}
 	case "vxAssume":
 		x.assumes = append(x.assumes, c.Implies(g, args[0].(*Term)))
+		return nil
+	case "vxUFI16":
+		// vxUFI16(name, a, b int, g float64) int16: uninterpreted function application
+		nm := x.knownStr(args[0], short)
+		return c.Apply("uf."+nm, BV(16), args[1].(*Term), args[2].(*Term), args[3].(*Term))
+	case "vxPrefer":
+		// soft constraint used only to pick a replay-friendly counterexample (never to decide)
+		x.prefers = append(x.prefers, c.Implies(g, args[0].(*Term)))
 		return nil
 	case "vxAssert":
 		id := x.knownStr(args[1], short)
